@@ -358,7 +358,7 @@ def sec_dispatch(rec, patches=None):
     L = load.load(MODS + ["acryo._rotation", "acryo.alignment._base"], overrides={"Rotation": rotation.SymRotation}, patches=patches)
     B, T, Bs, S = L["acryo.alignment._base"], L["acryo.tilt.core"], L["acryo.tilt._base"], L["acryo.tilt._single"]
     rec.encodes("acryo/alignment/_base.py:TomographyInput.__init__ (tilt dispatch)", "acryo/alignment/_base.py:TomographyInput._get_missing_wedge_mask")
-    B.RotationImplemented.__init__ = lambda self, template, mask=None, rotations=None: None
+    B.RotationImplemented.__init__ = lambda self, *a, **k: None
 
     class TI(B.TomographyInput):
         _optimize = _score = None
